@@ -16,6 +16,24 @@ NOTES = ('Every check executes the implementation in /repo/src (working tree) '
          'DESIGN.md.')
 
 CHECKS = [
+    {'id': 'C03', 'engine': 'explore', 'level': 'exploration',
+     'design_ref': 'DESIGN.md §4 C03',
+     'technique': 'bounded exhaustive enumeration of declaration-chain worlds '
+                  'x filter x repeat/shuffle x execution-mode vectors on the '
+                  'real Runner; executed multiset, process and layer-stack '
+                  'oracle against a reference selection; listing vs run order',
+     'text': 'Worlds of three declaration chains (8-chain menu: nested suites, '
+             'layer/level on suites, classes, instances, string names) over '
+             'layers L1, L2(L1), L3, with and without a layer that cannot be '
+             'torn down, are run under 12 filter vectors x 5 repeat/shuffle '
+             'vectors x {sequential, -j2, -j3} and listed with --list-tests; '
+             'executed tests must be exactly the reference selection, repeat '
+             'times, each in one process under exactly its own layer stack, '
+             'the listing must equal the selection per layer in execution '
+             'order without running code, and the per-layer order must agree '
+             'between sequential, parallel and resumed execution.',
+     'note': 'One test module only; multi-module discovery is C14. Children '
+             'are in-process real Runners.'},
     {'id': 'C09', 'engine': 'explore', 'level': 'exploration',
      'design_ref': 'DESIGN.md §4 C09',
      'technique': 'exhaustive small-scope enumeration of declaration chains '
@@ -222,7 +240,7 @@ CHECKS = [
              'nodes use whatever id() order the interpreter gives.'},
 ]
 
-_PENDING = ['C03', 'C06', 'C07', 'C09',
+_PENDING = ['C06', 'C07', 'C09',
             'C10', 'C11', 'C14', 'C15', 'C17', 'C18',
             'C19']
 _DONE = {c['id'] for c in CHECKS}
